@@ -60,6 +60,11 @@ CLAIMED = {
                   'tied by 13 compile-time contexts x chains of length 0-4 over 7 link kinds ending in a mutable variable / constant / literal, compared with the extracted model, plus free, bound and partially instantiated process parameters in array sizes.',
              design='4/C13',
              note='Trusted: hand models Effects.v/Compute.v, chain renderer, extraction. The restricted-parameter propagation is decided by the direct oracle only; the computable set is a parameter of the theorem.'),
+ 'C12': dict(technique='Coq proofs over a model of type mutability (prefix structure) and of isModifiableLValue; exhaustive constness-source x write-form matrix on the real type checker compared with the extracted model',
+             text='An accepted write (or non-const reference argument) reaches only variables whose declared type is mutable, through . [] ?: , and nested writes; a type is mutable exactly when no CONSTANT occurs on its spine, under any prefix, through arrays and in any field; '
+                  'indexing or selecting into a const object never yields a mutable type. Tied by 200+ cases (10 constness sources x const/mutable, 5 kinds of binders, 10 write forms incl. function and template reference arguments) on the real checker vs the extracted predicates.',
+             design='4/C12',
+             note='Trusted: hand model Constness.v (tied by the verdict matrix), the mapping of each test case to an lvalue term, extraction. const-qualified struct fields are outside the property.'),
 }
 NOT_YET = 'check not built yet in this revision (work in progress, see DESIGN.md section 7 staging)'
 m = dict(version=1, setup_cmd='tools/setup.sh',
